@@ -25,11 +25,14 @@ import time
 
 VERIF = os.path.dirname(os.path.abspath(__file__))
 REPO = os.environ.get("VERIF_REPO", "/repo")
-BUILD = os.path.join(VERIF, "build")
-BIN = os.path.join(VERIF, "bin")
-WORK = os.path.join(VERIF, "work")
-EVID = os.path.join(VERIF, "evidence")
-REPLAYS = os.path.join(VERIF, "replays")
+# VERIF_OUT relocates everything a check writes (used for sensitivity runs against
+# a scratch worktree named by VERIF_REPO); by default it is /verif itself.
+OUT = os.environ.get("VERIF_OUT", VERIF)
+BUILD = os.path.join(OUT, "build")
+BIN = os.path.join(OUT, "bin")
+WORK = os.path.join(OUT, "work")
+EVID = os.path.join(OUT, "evidence")
+REPLAYS = os.path.join(OUT, "replays")
 KNOWN = os.path.join(VERIF, "known_findings.txt")
 NCPU = int(os.environ.get("VERIF_WORKERS", "16"))
 
@@ -175,13 +178,17 @@ def match_known(findings, prop, oracle, sig):
 
 VIOL_RE = re.compile(r'VERIF-VIOLATION property=(\S+) oracle=(\S+) sig="((?:[^"\\]|\\.)*)" :: (.*)')
 FAILFILE_RE = re.compile(r'-rapid\.failfile="([^"]+)"')
+SEEDREPLAY_RE = re.compile(r'VERIF-SEEDREPLAY seed=(\d+)')
 
 
 def worker_cmd(binpath, job, seed, checks, timeout_s, failfile=None):
     cmd = [binpath, "-test.run", "^%s$" % job["test"], "-test.cpu", "1", "-test.count", "1",
            "-test.timeout", "%ds" % timeout_s, "-test.v",
            "-rapid.shrinktime", os.environ.get("VERIF_SHRINKTIME", "45s")]
-    if failfile:
+    if failfile and failfile.endswith(".seed"):
+        with open(failfile) as f:
+            cmd += ["-rapid.seed", str(json.load(f)["seed"]), "-rapid.nofailfile", "-rapid.checks", "1", "-rapid.shrinktime", "0s"]
+    elif failfile:
         cmd += ["-rapid.failfile", failfile, "-rapid.nofailfile", "-rapid.checks", "1"]
     else:
         cmd += ["-rapid.checks", str(checks), "-rapid.seed", str(seed)]
@@ -218,6 +225,13 @@ def parse_output(out):
     for m in FAILFILE_RE.finditer(out):
         ff = m.group(1)
     harness = "VERIF-HARNESS" in out
+    m = SEEDREPLAY_RE.search(out)
+    if m:
+        # hang watchdog: the first violation line before the marker is the verdict
+        viol = None
+        for vm in VIOL_RE.finditer(out[:m.start()]):
+            viol = {"property": vm.group(1), "oracle": vm.group(2), "sig": vm.group(3), "detail": vm.group(4)}
+        ff = "seed:" + m.group(1)
     return viol, ff, harness
 
 
@@ -334,7 +348,11 @@ def cmd_check(prop, tier, seed):
         h = hashlib.sha1((viol["oracle"] + viol["sig"]).encode()).hexdigest()[:10]
         base = os.path.join(REPLAYS, prop, "%d-%s" % (pr["seed"], h))
         rp = base + ".fail"
-        if ff:
+        if ff and ff.startswith("seed:"):
+            rp = base + ".seed"
+            with open(rp, "w") as f:
+                json.dump({"seed": int(ff[5:])}, f)
+        elif ff:
             src = ff if os.path.isabs(ff) else os.path.join(pr["wd"], ff)
             if os.path.exists(src):
                 shutil.copyfile(src, rp)
@@ -437,7 +455,7 @@ def cmd_check(prop, tier, seed):
 
 def cmd_replay(path):
     path = os.path.abspath(path)
-    side = path[:-5] + ".json" if path.endswith(".fail") else path + ".json"
+    side = os.path.splitext(path)[0] + ".json"
     with open(side) as f:
         meta = json.load(f)
     engines = load_engines()
